@@ -57,6 +57,7 @@ structure PTask where
   after : List Nat := []
   gen : Bool := false           -- `@task(is_generator=True)`
   fails : Bool := false         -- the body raises before writing anything
+  failsLate : Bool := false     -- the body writes all its products, then raises
   uncollectable : Bool := false -- as a task defined by a generator: `pytask_collect_task_protocol` reports FAIL for it
 deriving Repr, DecidableEq, Inhabited
 
@@ -212,7 +213,11 @@ def runBody (F : BodyFn) (t : PTask) (fs : FS) : FS × Bool :=
   let fs2 := (t.pprods.zipIdx).foldl (fun fs (sl, j) =>
       let n := (match c with | some (some x) => x | _ => sl.pat.len) % (sl.pat.len + 1)
       writeDir F t.id j src ds sl.pat n fs) fs1
-  (fs2, false)
+  (fs2, t.failsLate)
+
+/-- A task defined by a generator has the signature of a task of the session, or two defined tasks share one. -/
+def nameClash (ts : List PTask) (kids : List PTask) : Bool :=
+  kids.any (fun k => (findTask ts k.id).isSome) || !Sorter.nodupB (kids.map (·.id))
 
 /-- `provisional.pytask_execute_task` for a generator: call it, collect what it defined, re-create the DAG.
 `RuntimeError` when it defined nothing. Returns (session, raised). -/
@@ -223,6 +228,8 @@ def genExecute (Y : YieldFn) (s : Sess) (tk : PTask) : Sess × Bool :=
   if kids.isEmpty then (s1, true) else
   -- f1fcb9a: the first collection error of a defined task is raised inside the generator; nothing is added
   if kids.any (·.uncollectable) then (s1, true) else
+  -- 6571c4f: a defined task with the name (signature) of a task of the session or of another defined task: ValueError
+  if nameClash s1.tasks kids then (s1, true) else
   (recreate { s1 with tasks := s1.tasks ++ kids } tk.id, false)
 
 /-- One implementation of `pytask_execute_task`: (session, raised, returned a non-`None` result). -/
